@@ -1,6 +1,8 @@
 package redact
 
 import (
+	"fmt"
+	"os"
 	"strings"
 	"testing"
 )
@@ -21,3 +23,32 @@ func TestVerifReplayC03(t *testing.T) {
 	})
 }
 
+
+// TestVerifBoundedC03: C03 is decided deductively; this is an end-to-end cross-check of the public API.
+func TestVerifBoundedC03(t *testing.T) {
+	check := func(out string) (bool, string) {
+		if !vLineSafe(out) {
+			return false, "a line feed lies inside an envelope"
+		}
+		for _, line := range strings.Split(out, "\n") {
+			if !vWellFormed(line) {
+				return false, "a line of the output is not well-formed on its own"
+			}
+		}
+		return true, ""
+	}
+	rn, xn := 3, 2
+	if os.Getenv("VERIF_TIER") == "thorough" {
+		rn, xn = 4, 2
+	}
+	cases, _ := vRunN(t, "C03", check, rn, xn)
+	nl := 0
+	vRunN(t, "C03", func(out string) (bool, string) {
+		if strings.Contains(out, "\n") {
+			nl++
+		}
+		return true, ""
+	}, 2, 2)
+	vBounded("C03", "no line feed inside an envelope and every line well-formed on its own (end-to-end cross-check of the proved invariant)", cases, nl,
+		"outputs containing a line feed, counted on the sub-space of redactables of at most 2 pieces", fmt.Sprintf("redactables of at most %d and tails of at most %d pieces over {a, LF, start, end, E2, E2 80, 80, B9, BA, ?, space}, 18 producers each", rn, xn), !t.Failed())
+}
